@@ -836,8 +836,10 @@ def payable_function(su, meta=None):
         payable = any(a.variant == 'Mutability' and a.fields[0].variant == 'Payable' for a in fd.fields[5].items)
         has_body = fd.fields[8].variant == 'Some'
         should = has_body and vis in ('Public', 'External') and not payable
-        if kind != 'Function':
-            out.append((n, lid, False, not should))            # other kinds: free when the shape matches
+        if kind not in ('Function', 'Fallback'):
+            # constructors, receive functions (which must be payable anyway) and modifiers: free when the shape matches.
+            # A `fallback() external { .. }` is a function declaration with a visibility and a body like any other: canonical
+            out.append((n, lid, False, not should))
         else:
             out.append((n, lid, should, not should))
     return out
